@@ -118,7 +118,7 @@ class CoroutineProcessor(Processor):
         self._wait_queue = []       # Heap
         self._kill_queue = set()    # Coroutines waiting to be killed
         self._promises = {}     # Dict format: {generator: CoroutinePromise}
-        self._timer = 0.
+        self._timer = 0
 
     def start(self, generator: Generator) -> CoroutinePromise:
         """Add and start a coroutine, represented by a generator object.
